@@ -973,6 +973,14 @@ func (db *DB) initDatabaseFile() error {
 	db.pageSize = hdr.PageSize
 	db.pageN.Store(hdr.PageN)
 
+	// The mode was read before the hot journal was rolled back. An interrupted
+	// switch of the journal mode has just been undone so use the recovered header.
+	if hdr.WriteVersion == 2 && hdr.ReadVersion == 2 {
+		db.mode.Store(DBModeWAL)
+	} else {
+		db.mode.Store(DBModeRollback)
+	}
+
 	assert(db.pageSize > 0, "page size must be greater than zero")
 
 	db.chksums.mu.Lock()
